@@ -448,12 +448,18 @@ impl Check for C19Check {
                 2 => format!("f{k}.lz4"),
                 3 => format!("r n_f{k}"),
                 4 => format!("r\u{fc}n_f{k}.MID"),
+                // a name that is not UTF-8 (U+E000 stands for the byte 0xFF, see procsim::os_path)
+                5 => format!("r\u{E000}n_f{k}"),
                 _ => format!("run_f{k}"),
             }
         };
-        if stem_form < 5 {
+        if stem_form < 6 {
             stats.probe("file_names_with_unusual_stem");
         }
+        if stem_form == 5 {
+            stats.probe("file_names_not_utf8");
+        }
+        use crate::procsim::os_path;
         let mut names: Vec<String> = (0..built.files.len()).map(|k| format!("{}.mid{}", stem(k), if scn.files[k].lz4 { ".lz4" } else { "" })).collect();
         match &scn.file_fault {
             Some(FileFault::OtherRun { file }) if *file < built.files.len() && built.files.len() >= 2 => {
@@ -570,8 +576,8 @@ impl Check for C19Check {
             if let Some((bk, real)) = &bad_name_is_link_to {
                 if *bk == k {
                     write_file(&scratch.dir, real, f, scn.files[k].lz4, None);
-                    let _ = std::os::unix::fs::symlink(scratch.dir.join(real), scratch.dir.join(&names[k]));
-                    paths.push(scratch.dir.join(&names[k]));
+                    let _ = std::os::unix::fs::symlink(scratch.dir.join(real), scratch.dir.join(os_path(&names[k])));
+                    paths.push(scratch.dir.join(os_path(&names[k])));
                     stats.probe("unknown_extension_argument_is_a_link_to_a_properly_named_file");
                     log.bytes(&f.encode());
                     continue;
@@ -589,15 +595,15 @@ impl Check for C19Check {
         let _ = std::fs::create_dir_all(scratch.dir.join("sub.dir.mid"));
         let _ = std::fs::create_dir_all(scratch.dir.join("lnk.d"));
         for n in &names {
-            let _ = std::os::unix::fs::symlink(scratch.dir.join(n), scratch.dir.join("lnk.d").join(n));
+            let _ = std::os::unix::fs::symlink(scratch.dir.join(os_path(n)), scratch.dir.join("lnk.d").join(os_path(n)));
         }
         let path_form = |argv_seed: u64, k: usize| -> std::path::PathBuf {
             match (argv_seed >> 7) % 6 {
                 0 | 1 => paths[k].clone(),
-                2 => std::path::PathBuf::from(&names[k]),
-                3 => std::path::PathBuf::from(format!("./{}", names[k])),
-                4 => std::path::PathBuf::from(format!("sub.dir.mid/../{}", names[k])),
-                _ => std::path::PathBuf::from(format!("lnk.d/{}", names[k])),
+                2 => os_path(&names[k]),
+                3 => os_path(&format!("./{}", names[k])),
+                4 => os_path(&format!("sub.dir.mid/../{}", names[k])),
+                _ => os_path(&format!("lnk.d/{}", names[k])),
             }
         };
         let mk_narrow = |cfgs: Vec<RunCfg>| {
